@@ -169,8 +169,20 @@ def main(a):
         # CBMC processes need 3-14 GB each: concurrent bin/check invocations serialise their Kani phase on a file lock so
         # that the machine is never over-committed (an OOM-killed cbmc would turn the whole group undecided)
         import fcntl
-        lockf = open(os.path.join(common_scratch_root(), "hbsverif-kani.lock"), "w")
-        fcntl.flock(lockf, fcntl.LOCK_EX)
+        # VERIF_KANI_STREAMS concurrent Kani phases (default 1; the seeded runner uses 2 for the light quick tier)
+        streams = max(1, int(os.environ.get("VERIF_KANI_STREAMS", "1")))
+        lockf = None
+        for k in range(streams):
+            f = open(os.path.join(common_scratch_root(), "hbsverif-kani-%d.lock" % k), "w")
+            try:
+                fcntl.flock(f, fcntl.LOCK_EX | fcntl.LOCK_NB)
+                lockf = f
+                break
+            except OSError:
+                f.close()
+        if lockf is None:
+            lockf = open(os.path.join(common_scratch_root(), "hbsverif-kani-0.lock"), "w")
+            fcntl.flock(lockf, fcntl.LOCK_EX)
         with Scratch("kani-" + pid) as sc:
             try:
                 inject_summary = kani_engine.prepare(sc)
